@@ -45,7 +45,7 @@ func runC17(x *Ctx) {
 // stagesOf computes the stage markers reachable from f inside package container.
 func stagesOf(x *Ctx, f *ssa.Function) map[string]bool {
 	out := map[string]bool{}
-	reach := x.P.Reach([]*ssa.Function{f})
+	reach := x.P.ReachFrom(f)
 	for g := range reach {
 		if x.P.PkgPathOf(g) != load.Module+"/pkg/container" {
 			continue
@@ -351,33 +351,41 @@ func carIntegrity(x *Ctx) {
 }
 
 func writersCover(x *Ctx) {
-	// CAR: the iterator closure ranges over the whole map and yields {c: key, data: value}
-	if f := x.fn("C17.R5", "("+ctnPkg+"Writer).ToCarWriter$1"); f != nil {
-		ok, n := true, 0
-		for _, p := range x.pathsQuiet(f) {
-			if p.End != paths.EndLatch {
-				continue
-			}
-			n++
-			has := false
-			for _, c := range p.Calls() {
-				ct := p.Term(c)
-				if ct.Op == "dyncall" && ct.Args[0].String() == "arg0" && len(ct.Args) == 3 {
-					cell := paths.CellOf(ct.Args[1])
-					if cell != nil {
-						fs := p.FieldStores(cell)
-						if fs["c"] != nil && fs["c"].String() == "next(range(*fv0))#1" && fs["data"] != nil && fs["data"].String() == "next(range(*fv0))#2" && ct.Args[2].IsNil() {
-							has = true
+	// CAR: the code reachable from ToCarWriter that ranges over the writer's map (a closure handed to writeCar
+	// today; a method value or helper would do) yields {c: key, data: value} for every entry
+	if root := x.fn("C17.R5", "("+ctnPkg+"Writer).ToCarWriter"); root != nil {
+		rs := rangesOverWriter(x, root)
+		if len(rs) == 0 {
+			x.C.Unresolved("C17.R5", "range:ToCarWriter", x.pos(root), "no loop over the writer's map is reachable from ToCarWriter inside package container")
+		}
+		for _, r := range rs {
+			f, m := r.fn, "next(range("+r.mapTerm+"))"
+			ok, n := true, 0
+			for _, p := range x.pathsQuiet(f) {
+				if p.End != paths.EndLatch {
+					continue
+				}
+				n++
+				has := false
+				for _, c := range p.Calls() {
+					ct := p.Term(c)
+					if ct.Op == "dyncall" && ct.Args[0].Op == "param" && len(ct.Args) == 3 {
+						cell := paths.CellOf(ct.Args[1])
+						if cell != nil {
+							fs := p.FieldStores(cell)
+							if fs["c"] != nil && fs["c"].String() == m+"#1" && fs["data"] != nil && fs["data"].String() == m+"#2" && ct.Args[2].IsNil() {
+								has = true
+							}
 						}
 					}
 				}
+				if !has {
+					ok = false
+				}
 			}
-			if !has {
-				ok = false
-			}
+			ok = ok && n > 0
+			x.C.Obl("C17.R5", "car:yields-all", x.pos(f), "ToCarWriter yields {cid: key, data: value} for every entry of the writer's map", ok, "")
 		}
-		ok = ok && n > 0
-		x.C.Obl("C17.R5", "car:yields-all", x.pos(f), "ToCarWriter yields {cid: key, data: value} for every entry of the writer's map", ok, "")
 	}
 	if f := x.fn("C17.R5", ctnPkg+"writeCar$1"); f != nil {
 		w := func(n string, ct *paths.Term) bool {
@@ -385,25 +393,61 @@ func writersCover(x *Ctx) {
 		}
 		x.noPath("C17.R5", "car:writes-cid-and-data", f, paths.WantTrue, paths.CallFails(w), 0, "writeCar continues only after writing cid bytes ++ data of the block as one section")
 	}
-	if f := x.fn("C17.R5", "("+ctnPkg+"Writer).ToCborWriter$1$1"); f != nil {
-		ok, n := true, 0
-		for _, p := range x.pathsQuiet(f) {
-			if p.End != paths.EndLatch {
-				continue
-			}
-			n++
-			has := false
-			for _, c := range p.Calls() {
-				ct := p.Term(c)
-				if strings.HasSuffix(ct.Name, "qp.ListEntry") && strings.Contains(ct.String(), "qp.Bytes](next(range(*fv0))#2)") {
-					has = true
+	if root := x.fn("C17.R5", "("+ctnPkg+"Writer).ToCborWriter"); root != nil {
+		rs := rangesOverWriter(x, root)
+		if len(rs) == 0 {
+			x.C.Unresolved("C17.R5", "range:ToCborWriter", x.pos(root), "no loop over the writer's map is reachable from ToCborWriter inside package container")
+		}
+		for _, r := range rs {
+			f := r.fn
+			ok, n := true, 0
+			for _, p := range x.pathsQuiet(f) {
+				if p.End != paths.EndLatch {
+					continue
+				}
+				n++
+				has := false
+				for _, c := range p.Calls() {
+					ct := p.Term(c)
+					if strings.HasSuffix(ct.Name, "qp.ListEntry") && strings.Contains(ct.String(), "qp.Bytes](next(range("+r.mapTerm+"))#2)") {
+						has = true
+					}
+				}
+				if !has {
+					ok = false
 				}
 			}
-			if !has {
-				ok = false
+			ok = ok && n > 0
+			x.C.Obl("C17.R5", "cbor:writes-all", x.pos(f), "ToCborWriter adds the data of every entry of the writer's map to the list", ok, "")
+		}
+	}
+}
+
+type writerRange struct {
+	fn      *ssa.Function
+	mapTerm string
+}
+
+// rangesOverWriter finds, among the functions of package container reachable from root (context-sensitively:
+// closures, method values and helpers it hands on are followed), those that range over a value of type
+// container.Writer, with the rendering of that value inside the function.
+func rangesOverWriter(x *Ctx, root *ssa.Function) []writerRange {
+	var out []writerRange
+	var fs []*ssa.Function
+	for g := range x.P.ReachFrom(root) {
+		if x.P.PkgPathOf(g) == load.Module+"/pkg/container" {
+			fs = append(fs, g)
+		}
+	}
+	sort.Slice(fs, func(i, j int) bool { return load.ShortName(fs[i]) < load.ShortName(fs[j]) })
+	for _, g := range fs {
+		for _, b := range g.Blocks {
+			for _, in := range b.Instrs {
+				if rg, ok := in.(*ssa.Range); ok && rg.X.Type().String() == load.Module+"/pkg/container.Writer" {
+					out = append(out, writerRange{g, paths.DetachedTerm(g, rg.X).String()})
+				}
 			}
 		}
-		ok = ok && n > 0
-		x.C.Obl("C17.R5", "cbor:writes-all", x.pos(f), "ToCborWriter adds the data of every entry of the writer's map to the list", ok, "")
 	}
+	return out
 }
